@@ -234,7 +234,8 @@ def observe(fresh, model, log, seq):
                     % (seq, got_table, model.table)))
         # C11 is stated relative to the table the library reports: compare with a fresh interpreter set to THAT table
         key = json.dumps(got_table, sort_keys=True)
-        if key not in fresh:
+        if key not in fresh and _CTX.get('lazy', 0) < 6:
+            _CTX['lazy'] = _CTX.get('lazy', 0) + 1
             try:
                 if valid_table(got_table):
                     fr = fresh_results([got_table])
